@@ -1040,6 +1040,11 @@ func (lp *linProver) atomFacts(a ssa.Value, cx *linCtx) []linFact {
 				if lo, ok := calleeLowerBound(lp.p, f, x.Index); ok {
 					ge(linConst(lo), "result of "+f.Name()+" >= "+fmt.Sprint(lo))
 				}
+				// a count returned by a repository helper that is bounded by the length of one of
+				// its slice parameters on every return (a read helper handing back ReadFrom's count)
+				if j, ok := calleeResultLeLenParam(lp.p, f, x.Index); ok && j < len(call.Call.Args) {
+					le(lp.lenOf(call.Call.Args[j], cx), "result of "+f.Name()+" <= len(argument)")
+				}
 			}
 		}
 		// n of (n, err) := io.ReadFull(r, buf) / r.Read(buf) / ReadFrom(buf): 0 <= n <= len(buf)
@@ -2040,4 +2045,56 @@ func (lp *linProver) validatorFacts(cond ssa.Value, pol bool, cx *linCtx) []linF
 		}
 	}
 	return out
+}
+
+var calleeLeLenMemo = map[calleeKey]int{}
+
+// calleeResultLeLenParam: result idx of f is, on every return, proved <= len of
+// the same slice/string parameter j (inside f, from f's own guards and facts).
+// Returns j. Memoised; -1 = no such parameter.
+func calleeResultLeLenParam(p *Prog, f *ssa.Function, idx int) (int, bool) {
+	if f == nil || len(f.Blocks) == 0 || !p.IsRepoFn(f) {
+		return -1, false
+	}
+	key := calleeKey{f, idx}
+	if j, ok := calleeLeLenMemo[key]; ok {
+		return j, j >= 0
+	}
+	calleeLeLenMemo[key] = -1
+	if validatorDepth > 1 {
+		return -1, false
+	}
+	validatorDepth++
+	defer func() { validatorDepth-- }()
+	clp := newLinProver(p, f)
+	for j, prm := range f.Params {
+		if !isBytesOrString(prm.Type()) {
+			continue
+		}
+		all, n := true, 0
+		allInstrs(f, func(in ssa.Instruction) {
+			r, ok := in.(*ssa.Return)
+			if !ok || !all {
+				return
+			}
+			rr := retResults(r)
+			if rr == nil {
+				return
+			}
+			if idx >= len(rr) || !isIntType(rr[idx].Type()) {
+				all = false
+				return
+			}
+			n++
+			cx := clp.newCtx(r)
+			if !clp.proveAt(r, clp.lin(rr[idx], cx), clp.lenOf(prm, cx), 0, nil) {
+				all = false
+			}
+		})
+		if all && n > 0 {
+			calleeLeLenMemo[key] = j
+			return j, true
+		}
+	}
+	return -1, false
 }
